@@ -8,8 +8,10 @@ import LdkModel.Props.C19
 #print axioms Ldk.C19.crash_never_tears
 #print axioms Ldk.C19.async_last_issued_wins
 #print axioms Ldk.C19.async_any_interleaving
+#print axioms Ldk.C19.async_equals_sequential
 #print axioms Ldk.C19.monitor_isolation
 #print axioms Ldk.C19.archive_correct
 #print axioms Ldk.C19.archive_holds_memory_monitor
 #print axioms Ldk.C19.read_all_is_map_of_recover
 #print axioms Ldk.C19.cleanup_idempotent
+#print axioms Ldk.C19.cleanup_all_idempotent
